@@ -6,6 +6,7 @@ package main
 
 import (
 	"fmt"
+	"strings"
 	"math/big"
 )
 
@@ -394,6 +395,7 @@ func (r *refEval) run(states []*refState, i, limit int, _ interface{}) []*refSta
 				f := "%" + r.prog[j:k+1]
 				conv := r.prog[k]
 				i = k + 1
+				var extra []*refState
 				for _, s := range states {
 					if conv == 's' {
 						v := r.pop(s)
@@ -404,13 +406,30 @@ func (r *refEval) run(states []*refState, i, limit int, _ interface{}) []*refSta
 						r.emit(s, StrV{Spec: "fmt", SArgs: []Value{conc(f), *v.S}})
 					} else {
 						v := r.popInt(s)
+						// printf(3): the alternate form of x/X prefixes 0x only to a NONZERO result (Go's fmt prefixes zero too)
+						fz := f
+						if (conv == 'x' || conv == 'X') && strings.Contains(f, "#") {
+							fz = strings.Replace(f, "#", "", 1)
+						}
 						if isNum(v) {
-							r.emit(s, conc(fmt.Sprintf(f, int(bvSigned(v.Val, 64).Int64()))))
+							if v.Val.Sign() == 0 {
+								r.emit(s, conc(fmt.Sprintf(fz, 0)))
+							} else {
+								r.emit(s, conc(fmt.Sprintf(f, int(bvSigned(v.Val, 64).Int64()))))
+							}
+						} else if fz != f {
+							z := s.clone()
+							z.cond = append(z.cond, Eq(v, bv64(0)))
+							r.emit(z, StrV{Spec: "fmt", SArgs: []Value{conc(fz), v}}) // printf(fz, v) with v == 0 on this branch
+							extra = append(extra, z)
+							s.cond = append(s.cond, Not(Eq(v, bv64(0))))
+							r.emit(s, StrV{Spec: "fmt", SArgs: []Value{conc(f), v}})
 						} else {
 							r.emit(s, StrV{Spec: "fmt", SArgs: []Value{conc(f), v}})
 						}
 					}
 				}
+				states = append(states, extra...)
 			} else {
 				for _, s := range states {
 					s.undef = fmt.Sprintf("unknown %%%c", op)
